@@ -40,6 +40,12 @@ def is_alias_call(v):
         return False
     t = v.d["term"]
     name = t.get("name")
+    if name in ("and_then", "map") and len(v.kids) == 2 and v.kids[1].kind == "const":
+        # opt.map(String::as_str) / opt.and_then(Value::as_str): a view adaptor named by a fn item
+        fnp = (v.d["term"].get("self_ty") or "")
+        c = v.kids[1].d.get("c") or {}
+        last = (c.get("fn") or "").split("<")[0].rsplit("::", 1)[-1]
+        return bool(c.get("fn")) and last in ALIAS_NAMES and (fnp.startswith("std::option::Option") or fnp.startswith("std::result::Result") or not fnp)
     if name not in ALIAS_NAMES:
         return False
     tr = t.get("trait")
@@ -445,7 +451,7 @@ class FnVals:
             if k == "field":
                 v = self._field(v, e.get("name") if e.get("name") is not None else e["idx"], e["idx"], e.get("adt"))
             elif k == "downcast":
-                v = V("variant", dict(variant=e.get("variant")), [v], fn=self.fn)
+                v = self._downcast(v, e.get("variant"))
             elif k == "index":
                 v = V("index", dict(e=e), [v, self.at_local(e["local"], bb, idx)], fn=self.fn)
             elif k in ("cidx", "subslice"):
@@ -454,9 +460,58 @@ class FnVals:
                 v = V("unknown", {}, [v], fn=self.fn)
         return v
 
+    WANT = {"Continue": ("Ok", "Some"), "Break": ("Err", "None"), "Ok": ("Ok",), "Err": ("Err",), "Some": ("Some",), "None": ("None",)}
+
+    def _downcast(self, base, variant):
+        """(x as Variant): when x is (a `?`-branch of) a choice between Ok/Err/Some/None aggregates — typically the return value of an
+        inlined helper — keep only the alternatives of the matching variant (path sensitivity for Result/Option flows)"""
+        node = V("variant", dict(variant=variant), [base], fn=self.fn)
+        want = self.WANT.get(variant)
+        if not want:
+            return node
+        leaves = []
+        unknown = [False]
+
+        def collect(n, depth=0):
+            if depth > 12:
+                unknown[0] = True
+                return
+            if n.kind == "alias" and n.kids:
+                return collect(n.kids[0], depth + 1)
+            if n.kind == "call" and n.d["term"].get("name") == "branch" and n.d["term"].get("trait") == "std::ops::Try" and n.kids:
+                return collect(n.kids[0], depth + 1)
+            if n.kind == "phi":
+                for k in n.kids:
+                    collect(k, depth + 1)
+                return
+            if n.kind == "agg" and n.d["agg"].get("kind") == "adt" and n.d["agg"].get("adt") in ("std::result::Result", "std::option::Option"):
+                leaves.append(n)
+                return
+            if n.kind == "call" and (n.d["term"].get("callee") or "").endswith("FromResidual::from_residual"):
+                leaves.append(None)  # an Err/None produced by `?`: never the Ok/Some alternative
+                return
+            if n.kind in ("uninit", "pending", "cycle"):
+                return
+            unknown[0] = True
+        collect(base)
+        if unknown[0] or not leaves:
+            return node
+        aggs = [a for a in leaves if a is not None]
+        inner = None
+        sel = [a for a in aggs if a.d["agg"].get("variant") in want]
+        if sel and (len(leaves) > 1 or base.kind != "agg"):
+            node.d["sel"] = sel
+        return node
+
     def _field(self, base, name, idx, adt):
         if base.kind == "alias" and base.kids:
             return self._field(base.kids[0], name, idx, adt)
+        if base.kind == "variant" and base.d.get("sel"):
+            picks = [a.kids[idx] for a in base.d["sel"] if idx < len(a.kids)]
+            if len(picks) == 1:
+                return picks[0]
+            if picks:
+                return V("phi", {}, picks, fn=self.fn)
         if base.kind == "agg":
             a = base.d["agg"]
             if a.get("kind") in ("adt", "tuple", "closure") and idx < len(base.kids):
